@@ -286,6 +286,31 @@ func c04CheckE2E(c c04E2ECase) engine.Result {
 						res.Failf("adaptationfield.OPCR|read-back", "afLen %d: got % x err %v", afLen, b, err)
 					}
 				}
+				// a request that cannot be honoured (no room for the other clock) is refused and leaves the clock
+				// that is there readable and the packet unchanged
+				if c.Kind != "af-both" && afLen < 13 {
+					snap := p
+					var rerr error
+					if c.Kind == "af-pcr" {
+						rerr = af.SetHasOPCR(true)
+					} else {
+						rerr = af.SetHasPCR(true)
+					}
+					if rerr == nil {
+						res.Failf(c.Kind+"|second-clock-accepted-without-room", "afLen %d: the other clock was enabled although only %d bytes are there", afLen, afLen)
+					} else {
+						if p != snap {
+							res.Failf(c.Kind+"|refused-call-changed-the-packet", "afLen %d: enabling the other clock was refused (%v) but the packet changed: % x -> % x", afLen, rerr, snap[:20], p[:20])
+						}
+						if c.Kind == "af-pcr" {
+							if got, err := af.PCR(); err != nil || got != c.V {
+								res.Failf("PCR|read-back-after-refused-call", "afLen %d: PCR %d reads back %d (err %v)", afLen, c.V, got, err)
+							}
+						} else if got, err := af.OPCR(); err != nil || got != c.V {
+							res.Failf("OPCR|read-back-after-refused-call", "afLen %d: OPCR %d reads back %d (err %v)", afLen, c.V, got, err)
+						}
+					}
+				}
 				// each of the other optional fields is added behind the clocks and removed again: both clocks
 				// must read back what was set after every step
 				if c.Kind == "af-both" && afLen >= 20 {
@@ -411,14 +436,26 @@ func c04CheckE2E(c c04E2ECase) engine.Result {
 				}
 			}
 		case "pes-pts", "pes-pts-dts":
+			const m33 = uint64(1)<<33 - 1
+			dtsVariants := []uint64{(c.V*3 + 1) & m33}
+			if c.Kind == "pes-pts-dts" {
+				// related pairs: equal, complement (a stamp near 0 next to one near 2^33), one frame and one
+				// second earlier across the wrap
+				dtsVariants = append(dtsVariants, c.V, ^c.V&m33, (c.V-3003)&m33, (c.V-90000)&m33)
+			}
 			for _, sid := range []byte{0xE0, 0xC0, 0xBD} {
-				for _, extra := range []int{0, 2} {
+				for k := 0; k < len(dtsVariants)+1; k++ {
+					// the first DTS variant with both stuffing amounts, the others alternating
+					vi, extra := 0, 2*(k%2)
+					if k >= 2 {
+						vi = k - 1
+					}
 					var w ref.BitWriter
 					w.Put(24, 1)
 					w.Put(8, uint64(sid))
 					w.Put(16, 0)
 					w.Put(8, 0x84)
-					dts := (c.V*3 + 1) & (1<<33 - 1)
+					dts := dtsVariants[vi]
 					if c.Kind == "pes-pts" {
 						w.Put(8, 0x80)
 						w.Put(8, uint64(5+extra))
@@ -502,7 +539,7 @@ func init() {
 			},
 			&engine.Enum[c04E2ECase]{
 				Name: "end-to-end",
-				Rule: "PCR/OPCR set on adaptation fields of length {183,20,13,7} (PCR only, OPCR only, both) read back through method and function-style accessors and compared with the reference packet, also when the slot of a parsed packet already decodes to the value without holding its canonical bytes; PTS / PTS+DTS in reference-built PES headers for 3 stream ids with and without header stuffing and with 0, 1 or 4 bytes following the header; values: sparse(<=2 bits) bases x ext {0,1,255,256,299} and sparse(<=2 bits) PTS",
+				Rule: "PCR/OPCR set on adaptation fields of length {183,20,13,7} (PCR only, OPCR only, both) read back through method and function-style accessors and compared with the reference packet, also when the slot of a parsed packet already decodes to the value without holding its canonical bytes; PTS / PTS+DTS (DTS = 3v+1, v, ~v, v-3003, v-90000 mod 2^33) in reference-built PES headers for 3 stream ids with and without header stuffing and with 0, 1 or 4 bytes following the header; values: sparse(<=2 bits) bases x ext {0,1,255,256,299} and sparse(<=2 bits) PTS",
 				Gen: func(r *engine.Run, emit func(c04E2ECase)) {
 					for _, b := range sparse(33, 2, 0) {
 						for _, ext := range []uint64{0, 1, 255, 256, 299} {
